@@ -158,6 +158,13 @@ def judge_program(p, T):
             kind = "extra"
         else:
             kind = "extra-and-missing"
+        # root of the difference: a value that derives (statically) from a field written inside a callee, or from the result
+        # of a helper that itself calls a helper, is attributed to that construct rather than to the last one it went through
+        origins = {p.defs.get(i) for i in info.get("taint", [])}
+        if "callee-field-write" in origins:
+            feat = "via-callee-field-write"
+        elif "nested-call-return" in origins:
+            feat = "via-nested-call"
         f2 = feat
         falsy = any(x[0] == "c" and not x[2] for x in want)
         if kind in ("unknown", "missing") and falsy and ("binary-fold" in feat) and all((x[0] == "c" and not x[2]) for x in missing or want):
@@ -249,10 +256,12 @@ def main():
         pending = retry
         wave += 1
     if not rp:
-        chk.require("probe points compared", 1500 if not thorough else 40000)
-        chk.require("... of which non-trivial", 600 if not thorough else 15000)
-        chk.require("decision vectors executed in CPython", 500 if not thorough else 15000)
-        chk.require("compute_two_states calls recorded", 150 if not thorough else 4000)
+        # floors: about half of what seeds 0-2 measured on the healthy tree (quick: 1724-1912 probes, 1052-1185 non-trivial,
+        # 649-780 vectors, 487-504 folds; thorough: 46728 / 28566 / 18501 / 12803)
+        chk.require("probe points compared", 800 if not thorough else 22000)
+        chk.require("... of which non-trivial", 500 if not thorough else 13000)
+        chk.require("decision vectors executed in CPython", 300 if not thorough else 8000)
+        chk.require("compute_two_states calls recorded", 200 if not thorough else 5000)
         first = next(iter(progs.values()), None)
         if first is not None:
             chk.sample({"program": first.text})
